@@ -9,8 +9,8 @@ import (
 
 func init() {
 	register(&propDef{
-		id:  "C03",
-		run: runC03,
+		id:          "C03",
+		run:         runC03,
 		explanation: "Static analysis of what makes a snapshot/iterator a frozen view: (1) point reads and iterator creation register a snapshot element for their duration (typestate pairing on every exit); (2) the snapshot list is kept oldest-first (PushBack / Front), an element is removed only when its count reaches zero, and minSeq falls back to the current sequence only when the list is empty; (3) the compaction drop guard — an entry is dropped only when shadowed for the OLDEST live snapshot or an obsolete base-level tombstone (guard extraction over SSA); (4) iterators pin the version and buffers they read through releaser objects attached to the returned iterator, with no early release; (5) every read is filtered by the view's own sequence (value-origin flow at every call site of get/has/newIterator). Each is a necessary condition; sufficiency of the guard (joint reasoning over snapshot positions × level layout) and behaviour over time are NOT decided.",
 		notCovered:  "that the drop guard is sufficient for every snapshot set and level layout; behaviour over time; runtime interleavings of snapshot acquire/release with compaction",
 		assumptions: []string{"container/list semantics", "sequence numbers only grow (C05.6)"},
@@ -206,11 +206,11 @@ func ruleViewsPin(p *Prog, r *Report, rule string) {
 		early := countInstr(fn, evCallAny("(*leveldb.version).release", "(*leveldb.version).releaseNB", "(*leveldb.memDB).decref"))
 		r.Check(early == 0, fnName(fn), "no-early-release", "newRawIterator releases nothing itself (ownership moves to the iterator)", fmt.Sprintf("%d release/decref calls inside newRawIterator", early), p.Pos(fn.Pos()))
 		type want struct {
-			desc   string
-			val    VMatch
-			typ    string
-			field  string
-			cond   bool
+			desc  string
+			val   VMatch
+			typ   string
+			field string
+			cond  bool
 		}
 		wants := []want{
 			{"the version reference", mCall("(*leveldb.session).version"), "leveldb.versionReleaser", "v", false},
